@@ -216,6 +216,16 @@ type guardAtom struct {
 // dependence this never reports a condition whose other outcome can also lead
 // to i (early returns, || chains).
 func guardsOf(i ssa.Instruction) []guardAtom {
+	out := guardsLocal(i)
+	// inside a helper with a single call site: what holds at the call holds here too
+	if site := soleCaller(i.Parent()); site != nil {
+		out = append(out, guardsOf(site)...)
+	}
+	return out
+}
+
+// guardsLocal: the guards of i inside its own function only.
+func guardsLocal(i ssa.Instruction) []guardAtom {
 	fn := i.Parent()
 	var out []guardAtom
 	for _, b := range fn.Blocks {
@@ -279,7 +289,7 @@ func expandBoolPhi(cond ssa.Value, pol bool, at ssa.Instruction, succ int, depth
 		out = append(out, expandBoolPhi(c2, p2, at, succ, depth-1)...)
 	}
 	// what holds on arrival in the predecessor the value comes from
-	for _, g := range guardsOf(pred.Instrs[len(pred.Instrs)-1]) {
+	for _, g := range guardsLocal(pred.Instrs[len(pred.Instrs)-1]) {
 		out = append(out, guardAtom{g.Cond, g.Pol, at, succ})
 	}
 	return out
@@ -304,6 +314,9 @@ func controlGuards(i ssa.Instruction) []guardAtom {
 			break
 		}
 		out = append(out, guardAtom{cond, pol, br.Block.Instrs[len(br.Block.Instrs)-1], br.Succ})
+	}
+	if site := soleCaller(i.Parent()); site != nil {
+		out = append(out, controlGuards(site)...)
 	}
 	return out
 }
@@ -540,6 +553,9 @@ func skipGuards(at ssa.Instruction) []guardAtom {
 		if rejoin {
 			out = append(out, g)
 		}
+	}
+	if site := soleCaller(at.Parent()); site != nil {
+		out = append(out, skipGuards(site)...)
 	}
 	return out
 }
